@@ -232,7 +232,8 @@ func (c *Cache[K, V]) MapToCache(m map[K]V, d time.Duration) error {
 		err = errors.Join(err, e)
 	}
 
-	return errors.Unwrap(err)
+	// errors.Unwrap returns nil for a joined error.
+	return err
 }
 
 // IsExpired checks if a cache item is expired.
